@@ -23,12 +23,33 @@ import (
 
 const (
 	verifDir = "/verif"
-	buildDir = "/verif/build"
-	repoDir  = "/repo"
 	goBin    = "/opt/veriftools/go1.26.8/bin/go"
 )
 
-var workerBin = filepath.Join(buildDir, "simworker")
+// The registered checks always build /repo's working tree. VERIF_MUT_REPO is a development aid used only by
+// mutcheck.sh: it points the build at a scratch worktree carrying a seeded change, with a private overlay,
+// module file, evidence and replay directory, so that /repo and /verif/evidence are never touched by it.
+var (
+	buildDir = "/verif/build"
+	repoDir  = "/repo"
+	mutMode  = false
+	outDir   = verifDir // evidence/ and replays/ live under it
+)
+
+func init() {
+	if d := os.Getenv("VERIF_MUT_REPO"); d != "" {
+		repoDir = d
+		mutMode = true
+		buildDir = fmt.Sprintf("/verif/build/mut.%d", os.Getpid())
+		if b := os.Getenv("VERIF_MUT_BUILD"); b != "" {
+			buildDir = b
+		}
+		outDir = buildDir
+		os.MkdirAll(buildDir, 0o755)
+	}
+}
+
+var workerBin = "/verif/build/simworker"
 var privateBin bool
 
 func goEnv() []string {
@@ -55,7 +76,19 @@ func buildWorker(race bool) string {
 		// a check run keeps its own copy: a concurrent build must not swap the binary under a running sweep
 		bin = fmt.Sprintf("%s.%d", workerBin, os.Getpid())
 	}
-	args := []string{"build", "-overlay", filepath.Join(buildDir, "overlay.json"), "-o"}
+	args := []string{"build", "-overlay", filepath.Join(buildDir, "overlay.json")}
+	if mutMode {
+		mod, err := os.ReadFile(filepath.Join(verifDir, "sim/go.mod"))
+		if err != nil {
+			die2("go.mod: %v", err)
+		}
+		mod = bytes.Replace(mod, []byte("=> /repo"), []byte("=> "+repoDir), 1)
+		os.WriteFile(filepath.Join(buildDir, "go.mod"), mod, 0o644)
+		sum, _ := os.ReadFile(filepath.Join(verifDir, "sim/go.sum"))
+		os.WriteFile(filepath.Join(buildDir, "go.sum"), sum, 0o644)
+		args = append(args, "-modfile", filepath.Join(buildDir, "go.mod"))
+	}
+	args = append(args, "-o")
 	if race {
 		bin += "-race"
 		args = append(args, bin, "-race")
